@@ -840,6 +840,7 @@ func dslWorker(w *vf.Worker) {
 		e.hit("call:sort_collection(map)")
 		e.judgeArray("sort_collection", "sort_collection("+lit+")", vals, out, kNumA, true)
 	})
+	fracComparatorPass(w, e, &idx)
 	e.flush()
 	if w.Shard == 0 {
 		w.Sample(map[string]any{"worker": "dsl", "program": dslPrelude + `end { a = [1,"abc",true,""]; call p("fcr", sort(a,"cr")); call p("bwd", sort(a, bwd)); ... }`, "max_len": maxLen})
@@ -860,4 +861,104 @@ func parsePairs(lines []string, index map[string]sym) ([]pair, string) {
 		out = append(out, pair{l[:i], s})
 	}
 	return out, ""
+}
+
+// ---------------------------------------------------------------- user comparators returning non-integers
+
+// F: numbers only (the comparators subtract): floats 0.125 apart and ints. All
+// exactly representable, so every difference and its half / hundredth has the
+// exact sign.
+func alphaF() []sym {
+	return []sym{num("1", 1), num("1.125", 1.125), num("1.25", 1.25), num("0.5", 0.5), num("2", 2), num("-3", -3), num("10", 10), num("1.0", 1)}
+}
+
+const fracPrelude = `subr p(str tag, r) { print "#".tag; if (is_array(r)) { for (e in r) { print typeof(e).":".e; } } else {print "!".typeof(r)} }
+subr q(str tag, r) { print "#".tag; if (is_map(r)) { for (k,v in r) { print k."\t".typeof(v).":".v; } } else {print "!".typeof(r)} }
+func dsub(a,b) { return a - b }
+func drev(a,b) { return b - a }
+func dhalf(a,b) { return (a - b) * 0.5 }
+func dcent(a,b) { return (a - b) / 100 }
+func vsub(ak,av,bk,bv) { return av - bv }
+func vrev(ak,av,bk,bv) { return bv - av }
+func vhalf(ak,av,bk,bv) { return (av - bv) * 0.5 }
+func vcent(ak,av,bk,bv) { return (av - bv) / 100 }
+`
+
+// fracComparatorPass: `mlr help function sort`: the function returns "< 0, 0,
+// or > 0 as a < b, a == b, or a > b" - any number, not only -1/0/1. Every
+// array / map-by-value over F with comparators whose results are fractions of
+// magnitude below 1.
+func fracComparatorPass(w *vf.Worker, e *dslEval, idx *uint64) {
+	F := alphaF()
+	fIndex := symIndex(F)
+	maxLen := 4
+	if !w.Quick() {
+		maxLen = 5
+	}
+	arrayCalls := []dslCall{
+		{tag: "dsub", expr: "sort(a, dsub)", k: kNumA, assert: true},
+		{tag: "drev", expr: "sort(a, drev)", k: kNumD, assert: true},
+		{tag: "dhalf", expr: "sort(a, dhalf)", k: kNumA, assert: true},
+		{tag: "dcent", expr: "sort(a, dcent)", k: kNumA, assert: true},
+		{tag: "dlit", expr: "sort(a, func(x,y) { return (y - x) * 0.25 })", k: kNumD, assert: true},
+	}
+	mapCalls := []dslCall{
+		{tag: "vsub", expr: "sort(m, vsub)", k: kNumA, assert: true},
+		{tag: "vrev", expr: "sort(m, vrev)", k: kNumD, assert: true},
+		{tag: "vhalf", expr: "sort(m, vhalf)", k: kNumA, assert: true},
+		{tag: "vcent", expr: "sort(m, vcent)", k: kNumA, assert: true},
+		{tag: "vlit", expr: "sort(m, func(ak,av,bk,bv) { return (bv - av) / 8 })", k: kNumD, assert: true},
+	}
+	blocks(w, idx, len(F), maxLen, 4, "dsl sort with fractional comparators", func(list []int) {
+		in := make([]sym, len(list))
+		pairs := make([]pair, len(list))
+		for i, x := range list {
+			in[i] = F[x]
+			pairs[i] = pair{fmt.Sprintf("k%d", len(list)-i), F[x]}
+		}
+		alit, mlit := seqText(in), mapLit(pairs)
+		var b strings.Builder
+		b.WriteString(fracPrelude)
+		b.WriteString("end {\n a = " + alit + ";\n m = " + mlit + ";\n")
+		for _, c := range arrayCalls {
+			fmt.Fprintf(&b, " call p(\"%s\", %s);\n", c.tag, c.expr)
+		}
+		for _, c := range mapCalls {
+			fmt.Fprintf(&b, " call q(\"%s\", %s);\n", c.tag, c.expr)
+		}
+		b.WriteString("}\n")
+		r := vf.RunMlr([]string{"-n", "put", b.String()}, vf.MlrOpts{})
+		if !r.OK() {
+			w.Violation("dsl-exit:fractional-comparators:"+alit, fmt.Sprintf("mlr -n put with comparator-function sorts of %s fails: %s", alit, r.String()), map[string]any{"program": b.String()})
+			return
+		}
+		secs, _ := parseSections(r.Stdout)
+		for _, c := range arrayCalls {
+			call := strings.Replace(c.expr, "a", alit, 1)
+			lines, present := secs[c.tag]
+			out := make([]sym, 0, len(lines))
+			ok := present
+			for _, l := range lines {
+				s, good := parseElem(l, fIndex)
+				ok = ok && good
+				out = append(out, s)
+			}
+			if !ok {
+				w.Violation("dsl-array-perm:"+call, fmt.Sprintf("%s: unreadable result %q", call, lines), nil)
+				continue
+			}
+			e.hit("call:frac:" + c.tag)
+			e.judgeArray(c.tag, call, in, out, c.k, true)
+		}
+		for _, c := range mapCalls {
+			call := strings.Replace(c.expr, "m", mlit, 1)
+			out, bad := parsePairs(secs[c.tag], fIndex)
+			if _, present := secs[c.tag]; !present || bad != "" {
+				w.Violation("dsl-map-perm:"+call, fmt.Sprintf("%s: unreadable result (%s)", call, bad), nil)
+				continue
+			}
+			e.hit("call:frac:map-value:" + c.tag)
+			e.judgeMap(c.tag, call, pairs, out, c.k, false, true)
+		}
+	})
 }
